@@ -265,6 +265,7 @@ type srun struct {
 	hc      string
 	rel     string // relation of the deputy counts across the term change at this height
 	addrs   []common.Address
+	pairKey string // counter of schedule calls at the first block of a term, per (old count -> new count)
 	seenFP  map[string]bool
 	cnt     map[string]int64
 	out     map[string]bool
@@ -487,7 +488,7 @@ func runSchedItem(it schedItem, r *core.Result, onlyParent, onlySelf int, cnt ma
 		default:
 			x.rel = "old=new"
 		}
-		cnt[fmt.Sprintf("sched_pair_%dto%d", w.oldN, n)]++
+		x.pairKey = fmt.Sprintf("sched_pair_%dto%d", w.oldN, n)
 	}
 	cnt["sched_items"]++
 	for _, k := range w.parents {
@@ -592,6 +593,9 @@ func (x *srun) s1(pv *pview, di int, ivs, nows, few []int64, cfg func(int64) min
 			cnt["evaluations"]++
 			cnt["sched_calls_schedule"]++
 			cnt["sched_height_"+x.hc]++
+			if x.pairKey != "" {
+				cnt[x.pairKey]++
+			}
 			armed := ok && len(pend) == 1
 			if ok != (len(pend) == 1) || len(pend) > 1 {
 				x.violate(fmt.Sprintf("sched/schedule/result-and-timer-disagree/%s", x.hc),
@@ -974,7 +978,7 @@ func runSchedulePhase(r *core.Result) {
 				hcs[strings.TrimPrefix(k, "sched_height_")] = v
 			}
 		}
-		ex["items_per_deputy_count_change_at_term_first_block(old->new)"] = pairs
+		ex["schedule_calls_at_term_first_block_per_deputy_count_change(old->new)"] = pairs
 		ex["schedule_calls_per_height_class"] = hcs
 		ex["timers_armed"] = r.Counters["sched_timers_armed"]
 		ex["refused_not_deputy"] = r.Counters["sched_refused_not_deputy"]
